@@ -85,7 +85,8 @@ def items(tier, seed):
     for t in CT:
         out.append((0.5, 'tc::fixb_all<%s>(rng);' % CT[t]))
     # ... and of wide_integer<D, int>
-    for d in sorted(set([65, 127, 128, 200, rnd.randint(66, 260)])):
+    # 93, 103, 186, 196, 206: digit counts where D*log10(2) is within 0.02 of an integer (the decimal length formula is tight)
+    for d in sorted(set([65, 127, 128, 200, 196, [93, 103, 186, 206][seed % 4], rnd.randint(66, 260)])):
         out.append((1.0, 'tc::fixbw_all<%d>();' % d))
     return out
 
